@@ -129,3 +129,35 @@ Theorem C06_prepare_before_a321bb4_rejected :
     lprocess e s0 (p_entries p) = Reject RParse.
 Proof. exact prepare_before_a321bb4_rejected. Qed.
 Print Assumptions C06_prepare_before_a321bb4_rejected.
+
+(** Tie to the source: the block-size accounting regenerated on every run from
+    crates/astria-sequencer/src/proposal/block_size_constraints.rs by tools/rs2v.py
+    (Kernels/KProposal.v) is the model's.  A method is regenerated as a function of the fields it
+    reads; a [&mut self] method also returns the new value of the field it assigns, also on
+    [Err] ([KernelLib.RErr]; [None] would be a panic): the Rust methods never panic, return an
+    error exactly where the model returns [None], and then leave the size as it was. *)
+From Astria Require Import Kernels.KernelEqProposal.
+Theorem C06_kernels_tied :
+  KProposal.MAX_SEQUENCE_DATA_BYTES_PER_BLOCK = MAX_SEQ /\
+  (forall c n, KProposal.sequencer_has_space (max_seq c) (cur_seq c) n = Some (seq_has_space c n)) /\
+  (forall c n, KProposal.cometbft_has_space (max_comet c) (cur_comet c) n = Some (comet_has_space c n)) /\
+  (forall c n, KProposal.sequencer_checked_add (max_seq c) (cur_seq c) n
+               = Some (match seq_checked_add c n with
+                       | Some c' => (KernelLib.ROk tt, cur_seq c')
+                       | None => (KernelLib.RErr, cur_seq c)
+                       end)) /\
+  (forall c n, KProposal.cometbft_checked_add (max_comet c) (cur_comet c) n
+               = Some (match comet_checked_add c n with
+                       | Some c' => (KernelLib.ROk tt, cur_comet c')
+                       | None => (KernelLib.RErr, cur_comet c)
+                       end)) /\
+  (forall c n, seq_checked_add c n
+               = KernelLib.bind (KProposal.sequencer_checked_add (max_seq c) (cur_seq c) n) (put_cur_seq c)) /\
+  (forall c n, comet_checked_add c n
+               = KernelLib.bind (KProposal.cometbft_checked_add (max_comet c) (cur_comet c) n) (put_cur_comet c)).
+Proof.
+  exact (conj keq_max_sequence_data_bytes (conj keq_sequencer_has_space (conj keq_cometbft_has_space
+        (conj keq_sequencer_checked_add (conj keq_cometbft_checked_add
+        (conj keq_seq_checked_add_model keq_comet_checked_add_model)))))).
+Qed.
+Print Assumptions C06_kernels_tied.
